@@ -168,3 +168,50 @@ def native_replay(ob_id, v):
     if ob_id.startswith('C18.c'):
         return None
     return {'judge': 'names', 'kind': kind, 'ops': [{'op': 'parse_name', 'kind': kind, 'bytes': list(s.encode('utf-8'))}]}
+
+
+class InProject(Obligation):
+    """is_in_project(p) <=> the name's project id is exactly p; the accessors return the parsed components"""
+
+    def __init__(self, ctx, kind):
+        self.kind = kind
+        self.ty = 'TopicName' if kind == 'topic' else 'SubscriptionName'
+        self.id = 'C18.d-in-project-%s' % kind
+        self.desc = '%s::is_in_project(p) holds exactly when p is the project id of the name' % self.ty
+        self.bounds = {'project ids': 'opaque strings'}
+
+    def body(self, ip, p):
+        ctx = ip.ctx
+        from models_str import StrTok
+        from props.common import sym_name
+        name = sym_name(ctx, p, self.ty, 'n')
+        other = p.fresh('other_project')
+        r = run_to_end(ip.call_fn(ctx.fn(self.ty, 'is_in_project'), [Ref(Loc(Cell(name))), Ref(Loc(Cell(StrTok(other))))]))
+        idm = 'topic_id' if self.kind == 'topic' else 'subscription_id'
+        acc = {}
+        for m in ('project_id', idm):
+            try:
+                f = ctx.fn(self.ty, m)
+            except KeyError:
+                continue                      # the type has no such accessor
+            v = run_to_end(ip.call_fn(f, [Ref(Loc(Cell(name)))]))
+            while isinstance(v, Ref):
+                v = read_loc(v.loc)
+            acc[m] = v
+        return name, other, r, acc
+
+    def post(self, ip, p, res):
+        name, other, r, acc = res
+        order = ip.ctx.src.struct_fields(self.ty)
+        proj = name.fields[order.index('project_id')].tok
+        out = [Claim('is_in_project(p) == (project id == p)', r.t == (proj == other)), Cover('same project', proj == other), Cover('another project', proj != other)]
+        for m, v in acc.items():
+            out.append(Claim('%s() is the parsed %s' % (m, m.replace('_', ' ')), getattr(v, 'tok', None) is not None and v.tok == name.fields[order.index(m)].tok))
+        return out
+
+
+_obligations_c18 = obligations
+
+
+def obligations(ctx, cfg):
+    return _obligations_c18(ctx, cfg) + [InProject(ctx, 'topic'), InProject(ctx, 'subscription')]
